@@ -1,4 +1,4 @@
-import MpfVerif.Lemmas.BcpReader
+import MpfVerif.Lemmas.BcpMarker
 /-!
 # C19 — BCP messages round-trip exactly and reassemble from any chunking
 
@@ -139,5 +139,31 @@ is taken for `t?a=b` plus 12 payload bytes. -/
 theorem reserved_key_bytes_witness :
     markerOf (encodeFlat [116] [([97], .str [98]), ([98, 121, 116, 101, 115], .str [49, 50])]) = some ([116, 63, 97, 61, 98], 12) := by
   decide
+
+/-- an encoded scalar message whose parameters are not named `bytes` never looks like a line with a payload marker,
+whatever its values contain (`&bytes=3` inside a string is quoted) -/
+theorem encoded_has_no_marker (cmd : Bytes) (kw : List (Bytes × Val)) (hc : ∀ c ∈ cmd, c ≠ 38 ∧ c ≠ 63)
+    (hwf : KwWF kw) (hb : ∀ kv ∈ kw, kv.1 ≠ sBytes) : NoMarker (encodeFlat cmd kw) :=
+  encoded_no_marker cmd kw hc hwf hb
+
+/-- **end to end**: any list of encoded scalar messages (no parameter named `bytes` or `json`, distinct names,
+arbitrary values), each with or without a byte payload, written to the wire and read back under ANY chunking, is
+delivered in order, each line decoding to exactly the command and parameters that were sent. -/
+theorem stream_roundtrip (msgs : List ((Bytes × List (Bytes × Val)) × Bytes)) (chunks : List Bytes)
+    (h : ∀ m ∈ msgs, (∀ c ∈ m.1.1, c ≠ 38 ∧ c ≠ 63 ∧ c ≠ 10) ∧ KwWF m.1.2 ∧
+        (∀ kv ∈ m.1.2, kv.1 ≠ sBytes ∧ kv.1 ≠ sJson))
+    (hc : chunks.flatten = (msgs.map (fun m => (encodeFlat m.1.1 m.1.2, m.2))).flatMap wire) :
+    feedChunks {} chunks = ({}, msgs.map (fun m => (encodeFlat m.1.1 m.1.2, m.2))) ∧
+      ∀ m ∈ msgs, decode (encodeFlat m.1.1 m.1.2) = .flat m.1.1 m.1.2 := by
+  constructor
+  · apply delivered_in_order_chunked _ _ _ hc
+    intro f hf
+    obtain ⟨m, hm, rfl⟩ := List.mem_map.mp hf
+    obtain ⟨h1, h2, h3⟩ := h m hm
+    exact ⟨encoded_is_one_line _ _ (fun hx => (h1 10 hx).2.2 rfl) h2,
+      fun _ => encoded_has_no_marker _ _ (fun c hx => ⟨(h1 c hx).1, (h1 c hx).2.1⟩) h2 (fun kv hk => (h3 kv hk).1)⟩
+  · intro m hm
+    obtain ⟨h1, h2, h3⟩ := h m hm
+    exact roundtrip_flat _ _ (fun hx => (h1 63 hx).2.1 rfl) h2 (fun kv hk => (h3 kv hk).2)
 
 end MpfVerif.C19
